@@ -66,7 +66,18 @@ func hashStores(ctx sdk.Context, keys []storetypes.StoreKey) string {
 }
 
 func init() {
+	// two worlds per run: (0) every role store populated; (1) the single-value admin field left EMPTY (oracle admin, as in
+	// the default oracle genesis — no message can set it later) and a clp whitelist that lists only a stranger.  `reset`
+	// starts a new history for the model.
 	families["auth"] = func(rng *Rng, n int, out *Out, replay string) {
+		authWorld(rng, n*3/5, out, replay, 0)
+		out.Emit("reset", "ok", "reset", false)
+		authWorld(rng, n, out, replay, 1)
+	}
+}
+
+func authWorld(rng *Rng, n int, out *Out, replay string, variant int) {
+	{
 		sifapp.SetConfig(false)
 		// accounts
 		const NACC = 14
@@ -76,7 +87,7 @@ func init() {
 		}
 		// the role stores come from the genesis file, in a mix of spellings (see roleGenesis)
 		app := sifapp.SetupFromGenesis(false, func(app *sifapp.SifchainApp, gs sifapp.GenesisState) sifapp.GenesisState {
-			return roleGenesis(app, gs, addrs, rng)
+			return roleGenesis(app, gs, addrs, rng, variant)
 		})
 		ctx := app.BaseApp.NewContext(false, tmproto.Header{Height: 5})
 		rs, ok := app.CommitMultiStore().(*rootmulti.Store)
@@ -327,7 +338,7 @@ func storedAuth(app *sifapp.SifchainApp, ctx sdk.Context, a sdk.AccAddress) stri
 //	         lower case), PMTPREWARDS for a string that is no address, ETHBRIDGE for 11 in mixed case (not valid bech32);
 //	oracle   admin = account 7, spelled in upper case half of the time;
 //	clp      whitelist = accounts 8 (upper case half of the time) and 9.
-func roleGenesis(app *sifapp.SifchainApp, gs sifapp.GenesisState, addrs []sdk.AccAddress, rng *Rng) sifapp.GenesisState {
+func roleGenesis(app *sifapp.SifchainApp, gs sifapp.GenesisState, addrs []sdk.AccAddress, rng *Rng, variant int) sifapp.GenesisState {
 	cdc := app.AppCodec()
 	var ag admintypes.GenesisState
 	cdc.MustUnmarshalJSON(gs[admintypes.ModuleName], &ag)
@@ -364,6 +375,9 @@ func roleGenesis(app *sifapp.SifchainApp, gs sifapp.GenesisState, addrs []sdk.Ac
 	if rng.Bool() {
 		og.AdminAddress = upperOf(addrs[7])
 	}
+	if variant == 1 {
+		og.AdminAddress = "" // unset: authorises nobody
+	}
 	gs[oracletypes.ModuleName] = cdc.MustMarshalJSON(&og)
 
 	var cg clptypes.GenesisState
@@ -373,6 +387,9 @@ func roleGenesis(app *sifapp.SifchainApp, gs sifapp.GenesisState, addrs []sdk.Ac
 		w8 = upperOf(addrs[8])
 	}
 	cg.AddressWhitelist = []string{w8, addrs[9].String()}
+	if variant == 1 {
+		cg.AddressWhitelist = []string{addrs[13].String()} // the genesis must carry one; only a stranger
+	}
 	gs[clptypes.ModuleName] = cdc.MustMarshalJSON(&cg)
 	return gs
 }
@@ -389,8 +406,9 @@ func emitRoleStores(app *sifapp.SifchainApp, ctx sdk.Context, out *Out) {
 		}
 	}
 	it.Close()
-	if oa := app.OracleKeeper.GetAdminAccount(ctx); oa != nil {
-		out.Emit("cfg oracle "+oa.String(), "ok", "cfg", false)
+	// oracle admin from its raw bytes (gogotypes.BytesValue: 0x0a <len> <address>); nothing or an empty value = unset
+	if ov := ctx.KVStore(app.GetKey(oracletypes.StoreKey)).Get(oracletypes.AdminAccountPrefix); len(ov) > 2 && ov[0] == 0x0a && int(ov[1]) == len(ov)-2 {
+		out.Emit("cfg oracle "+sdk.AccAddress(ov[2:]).String(), "ok", "cfg", false)
 	} else {
 		out.Emit("cfg oracle -", "ok", "cfg", false)
 	}
